@@ -275,3 +275,64 @@ Theorem c20_accept_failure_eventually : forall tr s e, (exists os, run (init tru
        acc s' = Returned (retv_of e) /\ In (LoopReturn (retv_of e)) (tr ++ tr')).
 Proof. exact accept_failure_eventually. Qed.
 Print Assumptions c20_accept_failure_eventually.
+
+(** * Monitors over the observation sequence of a run (loop/LoopMonitors.v), extracted and evaluated by the runner on
+    every harness log, racing ones included.  [env_of tr] = the environment labels of the trace in order (accepter,
+    context, peers, handlers), [os] = the observations of the run in order; of [env_of tr] the monitors use only the
+    number of Accepts and whether AcceptErr EOther occurs. *)
+From JV Require Import LoopMonitors.
+
+(* (a) every service instance i has at most one OFinish, after [OAssigner i true], never after [OAssigner i false], and
+   with the assigner that instance returned (a = i) *)
+Theorem c20_mon_finish_once_sound : forall tr s os, run (init true) tr = Some (s, os) ->
+  mon_finish_once (env_of tr) os = true.
+Proof. exact mon_finish_once_sound. Qed.
+Print Assumptions c20_mon_finish_once_sound.
+
+(* (b) nothing is observed after an OReturn (at most one; no OFinish, ONewSvc, OAssigner, OCall after it); every instance
+   with [OAssigner i true] before it has its OFinish before it; its value is RErr iff AcceptErr EOther is among the
+   environment labels *)
+Theorem c20_mon_return_last_sound : forall tr s os, run (init true) tr = Some (s, os) ->
+  mon_return_last (env_of tr) os = true.
+Proof. exact mon_return_last_sound. Qed.
+Print Assumptions c20_mon_return_last_sound.
+
+(* (c) the ONewSvc indices are 0, 1, 2, ... in order, and never more than the Accept labels *)
+Theorem c20_mon_fresh_service_sound : forall tr s os, run (init true) tr = Some (s, os) ->
+  mon_fresh_service (env_of tr) os = true.
+Proof. exact mon_fresh_service_sound. Qed.
+Print Assumptions c20_mon_fresh_service_sound.
+
+Theorem c20_newsvc_count_le_accepts : forall tr s os, run (init true) tr = Some (s, os) ->
+  newsvc_of os = seq 0 (length (newsvc_of os)) /\ length (newsvc_of os) <= n_accepts (env_of tr).
+Proof. exact newsvc_count_le_accepts. Qed.
+Print Assumptions c20_newsvc_count_le_accepts.
+
+(* (c), order-free (distinct indices, each below their number, not more than the Accepts): what is evaluated on
+   racing logs, where the harness may write the lines of two racing newService calls in the other order *)
+Theorem c20_mon_fresh_service_unordered_sound : forall tr s os, run (init true) tr = Some (s, os) ->
+  mon_fresh_service_unordered (env_of tr) os = true.
+Proof. exact mon_fresh_service_unordered_sound. Qed.
+Print Assumptions c20_mon_fresh_service_unordered_sound.
+
+(* (d) every OAssigner i _ comes after ONewSvc i and is the only one of i; every OCall _ a is served by an assigner that
+   was returned ([OAssigner a true] before it) and whose instance has not been finished *)
+Theorem c20_mon_assigner_call_sound : forall tr s os, run (init true) tr = Some (s, os) ->
+  mon_assigner_call (env_of tr) os = true.
+Proof. exact mon_assigner_call_sound. Qed.
+Print Assumptions c20_mon_assigner_call_sound.
+
+(* all of them, also on the environment sequence WITHOUT the closing errors (AcceptErr EClosing is a label of the model
+   that an accepter honouring the context produces by itself after CtxEnd: it is no line of a log) *)
+Theorem c20_mon_all_sound : forall tr s os, run (init true) tr = Some (s, os) ->
+  mon_all (env_of tr) os = true /\ mon_all (filter not_closing (env_of tr)) os = true.
+Proof. exact mon_all_sound. Qed.
+Print Assumptions c20_mon_all_sound.
+
+(* (e) when OReturn is observed newService has been called once for every Accept label, and the Assigner of each of
+   these instances has been called: Loop waits for the goroutine of every connection it accepted *)
+From JV Require Import LoopMonServed.
+Theorem c20_mon_return_served_sound : forall tr s os, run (init true) tr = Some (s, os) ->
+  mon_return_served (env_of tr) os = true.
+Proof. exact mon_return_served_sound. Qed.
+Print Assumptions c20_mon_return_served_sound.
